@@ -11,6 +11,9 @@ type RecAttrs struct {
 	// SeqLens, when non-nil, holds the number of valid steps per batch entry (ONNX sequence_lens): beyond it the
 	// entry's state is carried unchanged and its rows of Y are zero
 	SeqLens []int
+	// Reverse: direction="reverse": the steps are processed from the last to the first; Y keeps the time positions of
+	// X, Y_h is the state after the step at time 0 (not combined with SeqLens here)
+	Reverse bool
 	// variants for the discrimination self-check
 	Variant string // "", "gate-order", "bias-slots", "peephole-slots"
 }
@@ -27,6 +30,15 @@ func actFn(name string) (func(float64) float64, bool) {
 				return x
 			}
 			return 0
+		}, true
+	case "softsign", "Softsign":
+		return func(x float64) float64 { return x / (1 + math.Abs(x)) }, true
+	case "softplus", "Softplus":
+		return func(x float64) float64 { // ln(1+e^x) without overflow
+			if x > 0 {
+				return x + math.Log1p(math.Exp(-x))
+			}
+			return math.Log1p(math.Exp(x))
 		}, true
 	}
 	return nil, false
@@ -160,7 +172,11 @@ func Recurrent(op string, X, W, R, B, h0, c0, P *T, a RecAttrs) ([]*T, error) {
 		return
 	}
 	xt := make([]float64, Bn*I)
-	for t := 0; t < S; t++ {
+	for step := 0; step < S; step++ {
+		t := step
+		if a.Reverse {
+			t = S - 1 - step
+		}
 		for i := range xt {
 			xt[i] = X.F(t*Bn*I + i)
 		}
